@@ -14,7 +14,8 @@ def run(run):
     run.regen("recordrange", ["go", "run", "-C", "extract/parfacts", ".", "recordrange"], "Csvq/Gen/RecordRange.lean")
     run.regen("routine", ["go", "run", "-C", "extract/parfacts", ".", "routine"], "Csvq/Gen/RoutineNumber.lean")
     run.regen("pipefacts", ["go", "run", "-C", "extract/pipefacts", "."], "Csvq/Gen/PipeFacts.lean")
-    run.obligations_for(["Csvq.Props.C12", "Csvq.Props.C12Pipe"])
+    run.regen("timefacts", ["go", "run", "-C", "extract/timefacts", "."], "Csvq/Gen/TimeFacts.lean")
+    run.obligations_for(["Csvq.Props.C12", "Csvq.Props.C12Pipe", "Csvq.Props.C12Time"])
     run.stream("c12", 300 if q else 3000, timeout=3000)
     if not q:
         for k in range(1, 3):
